@@ -108,7 +108,9 @@ func (s *Server) handleProposeVersions(msg protocol.Message) error {
 			if err == nil && proposedVersionData != nil &&
 				proposedVersionData.Query() {
 				msgQueryReply := NewMsgQueryReply(s.config.ProtocolVersionMap)
-				if err := s.SendMessage(msgQueryReply); err != nil {
+				// Wait for the reply to be written: returning an error below stops
+				// the protocol, which would otherwise discard the queued message
+				if err := s.SendMessageAndWait(msgQueryReply); err != nil {
 					return err
 				}
 				return errors.New(
@@ -141,7 +143,9 @@ func (s *Server) handleProposeVersions(msg protocol.Message) error {
 				supportedVersions,
 			},
 		)
-		if err := s.SendMessage(msgRefuse); err != nil {
+		// Refusals are sent with SendMessageAndWait: returning an error stops the
+		// protocol, which would otherwise discard the queued refusal before it is written
+		if err := s.SendMessageAndWait(msgRefuse); err != nil {
 			return err
 		}
 		return errors.New("handshake failed: refused due to version mismatch")
@@ -166,7 +170,7 @@ func (s *Server) handleProposeVersions(msg protocol.Message) error {
 				),
 			},
 		)
-		if err := s.SendMessage(msgRefuse); err != nil {
+		if err := s.SendMessageAndWait(msgRefuse); err != nil {
 			return err
 		}
 		return errors.New("handshake failed: refused due to empty version data")
@@ -182,7 +186,7 @@ func (s *Server) handleProposeVersions(msg protocol.Message) error {
 				err.Error(),
 			},
 		)
-		if err := s.SendMessage(msgRefuse); err != nil {
+		if err := s.SendMessageAndWait(msgRefuse); err != nil {
 			return err
 		}
 		return fmt.Errorf(
@@ -200,7 +204,7 @@ func (s *Server) handleProposeVersions(msg protocol.Message) error {
 				),
 			},
 		)
-		if err := s.SendMessage(msgRefuse); err != nil {
+		if err := s.SendMessageAndWait(msgRefuse); err != nil {
 			return err
 		}
 		return errors.New("handshake failed: refused due to empty version map")
@@ -216,7 +220,7 @@ func (s *Server) handleProposeVersions(msg protocol.Message) error {
 				errMsg,
 			},
 		)
-		if err := s.SendMessage(msgRefuse); err != nil {
+		if err := s.SendMessageAndWait(msgRefuse); err != nil {
 			return err
 		}
 		return fmt.Errorf(
